@@ -393,6 +393,7 @@ def main():
                    "correspondence_that_no_longer_checks": [{"what": a, "detail": b} for a, b in tie_errors] +
                    [{"what": "model/implementation disagreement", "case": cases.get(v.get("case")), "verdict": v} for v in disagree[:20]],
                    "disagreements": len(disagree), "seed": seed, "tier": tier,
+                   "harness_process_died": crash,
                    "regenerated_facts": gen_snapshot(cfg, [n for n, _ in po["failed"]]),
                    "searched": "spec predicate evaluated on the implementation's outputs for %d generated cases (corpus first): no case falsified it" % ncases},
                   open(rp, "w"), indent=1)
